@@ -151,6 +151,18 @@ def cases(ctx):
         bs = "".join(map(str, f[:rng.randrange(1, 60)]))
         yield from three("bin2int", [bs], "bin2int")
         yield from three("bin2hex", [bs], "bin2hex")
+    # the same frame through crc / icao in several orders: every answer must equal a fresh evaluation
+    for _ in range(ctx.n(300, 5000)):
+        n = rng.choice([56, 112])
+        f = spec.background(rng, n, "rand")
+        spec.put(f, 0, 5, rng.choice([0, 4, 5, 16, 20, 21, 17, 11]))
+        m = hex_of(f[:n])
+        fresh = {(fn, a): core.call(callm, "cur", fn, m, *a) for fn, a in (("crc", (False,)), ("crc", (True,)), ("icao", ()))}
+        seq = [("crc", (True,)), ("crc", (False,)), ("icao", ()), ("crc", (False,)), ("crc", (True,)), ("icao", ())]
+        if rng.random() < 0.5:
+            seq = seq[::-1]
+        for fn, a in seq:
+            yield dict(op=None, real=(H + "callm_mapped", ["py", fn, m] + list(a)), expect=fresh[(fn, a)], tag="E-sequence", info=dict(stream="E", fn=fn))
     for _ in range(ctx.n(300, 3000)):
         d = "".join(map(str, spec.background(rng, 56, "rand")))
         sb = rng.randrange(1, 50)
@@ -166,6 +178,8 @@ def cases(ctx):
     for n, lo, hi in NL_TABLE:
         t = lo / 1e12
         pts += [t + 1e-6, t - 1e-6, -(t + 1e-6), -(t - 1e-6)]
+        for d_ in (2e-9, 5e-9, 1e-8, 1e-7):
+            pts += [t + d_, t - d_, -(t + d_), -(t - d_)]
     pts += [rng.uniform(-90, 90) for _ in range(ctx.n(3000, 100000))]
     for x in pts:
         yield from three("cprNL", [x], "cprNL")
